@@ -117,7 +117,8 @@ class MultiCategorical(
                 f"Last dimension ({arr.shape[-1]}) must equal sum(action_dims) ({total})."
             )
 
-        split_idx = jnp.cumsum(jnp.asarray(action_dims[:-1]))
+        # Static split points (plain ints), so the split also works under jit/vmap.
+        split_idx = [sum(action_dims[: i + 1]) for i in range(len(action_dims) - 1)]
         pieces = tuple(jnp.split(arr, split_idx, axis=-1))
         return pieces, action_dims
 
